@@ -689,9 +689,11 @@ add('C16', 'breaker', 'new-token-without-style', [('prettyprinter/syntax.py', ' 
 add('C16', 'breaker', 'underline-again', [(C, 'c &= colorful.underlined', 'c &= colorful.underline')], 'C16.e')
 add('C16', 'breaker', 'bg-only-accessor-again', [(C, "accessor += '_on_prettyprinterCurrBg' if accessor else 'on_prettyprinterCurrBg'", "accessor += '_on_prettyprinterCurrBg'")], 'C16.e')
 add('C16', 'breaker', 'palette-name-mismatch', [(C, "accessor = 'prettyprinterCurrFg'", "accessor = 'prettyprinterFg'")], 'C16.e')
-add('C16', 'breaker', 'no-final-reset', [(C, '''    if colorstack:
+# on balanced push/pop input (everything a document lays out to) the stack is empty at the end and the last pop has
+# already written reset: removing the final guard changes nothing the property speaks about -> a twin
+add('C16', 'twin', 'no-final-reset-on-balanced-input', [(C, '''    if colorstack:
         stream.write(str(colorful.reset))
-''', '')], 'C16.c')
+''', '')])
 add('C16', 'breaker', 'style-not-from-reset', [(C, '    c = colorful.reset\n', '    c = colorful.bold\n')], 'C16.d')
 add('C16', 'breaker', 'pop-writes-reset-always', [(C, '''                    if colorstack:
                         stream.write(str(colorstack[-1]))
@@ -704,6 +706,90 @@ add('C16', 'breaker', 'colored-renderer-text-upper', [(C, '''            if isin
 add('C16', 'breaker', 'push-writes-nothing', [(C, '''                    colorstack.append(color)
                     stream.write(str(color))''', '''                    colorstack.append(color)''')], 'C16.b')
 add('C16', 'breaker', 'comment-annotation-plain-string', [(P, "    return annotate(CommentAnnotation(comment_text), doc)", "    return annotate(('comment', comment_text), doc)")], 'C16.a')
+add('C16', 'breaker', 'style-cache-keyed-by-colours-only', [(C, '''def styleattrs_to_colorful(attrs):
+    c = colorful.reset''', '''_style_cache = {}
+
+
+def styleattrs_to_colorful(attrs):
+    return _style_cache.setdefault((attrs['color'], attrs['bgcolor']), _styleattrs_to_colorful(attrs))
+
+
+def _styleattrs_to_colorful(attrs):
+    c = colorful.reset''')], 'C16.b')
+add('C16', 'breaker', 'colour-cache-global-across-styles', [(C, '''    color_cache = {}
+
+    colorstack = []''', '''    color_cache = _GLOBAL_COLOR_CACHE
+
+    colorstack = []'''), (C, '''def colored_render_to_stream(''', '''_GLOBAL_COLOR_CACHE = {}
+
+
+def colored_render_to_stream(''')], 'C16.b')
+add('C16', 'breaker', 'stack-reset-per-line', [(C, '''    colorstack = []
+
+    sdoc_lines = as_lines(evald)
+
+    for sdoc_line in sdoc_lines:''', '''    sdoc_lines = as_lines(evald)
+
+    for sdoc_line in sdoc_lines:
+        colorstack = []''')], 'C16.b')
+add('C16', 'breaker', 'fg-and-bg-swapped', [(C, "colorful.update_palette({'prettyprinterCurrFg': attrs['color']})", "colorful.update_palette({'prettyprinterCurrFg': attrs['bgcolor']})")], 'C16.d')
+add('C16', 'breaker', 'italic-dropped', [(C, '''    if attrs['italic']:
+        c &= colorful.italic
+''', '')], 'C16.d')
+add('C16', 'breaker', 'rstrip-only-when-last-item-is-text', [(C, '''        if last_text_sdoc_idx != -1:
+            last_text_sdoc = sdoc_line[last_text_sdoc_idx]
+            sdoc_line[last_text_sdoc_idx] = last_text_sdoc.rstrip()''', '''        if last_text_sdoc_idx == len(sdoc_line) - 1:
+            last_text_sdoc = sdoc_line[last_text_sdoc_idx]
+            sdoc_line[last_text_sdoc_idx] = last_text_sdoc.rstrip()''')], 'C16.f')
+add('C16', 'breaker', 'pop-restores-bottom-of-stack', [(C, 'stream.write(str(colorstack[-1]))', 'stream.write(str(colorstack[0]))')], 'C16.b')
+add('C16', 'twin', 'pop-emptiness-test-instead-of-try', [(C, '''                    try:
+                        colorstack.pop()
+                    except IndexError:
+                        continue
+
+                    if colorstack:
+                        stream.write(str(colorstack[-1]))
+                    else:
+                        stream.write(str(colorful.reset))''', '''                    if not colorstack:
+                        continue
+                    colorstack.pop()
+                    restored = colorstack[-1] if colorstack else colorful.reset
+                    stream.write(str(restored))''')])
+add('C16', 'twin', 'reset-written-separately-before-style', [(C, '''                    colorstack.append(color)
+                    stream.write(str(color))''', '''                    colorstack.append(color)
+                    stream.write(str(colorful.reset))
+                    stream.write(str(color))''')])
+add('C16', 'twin', 'style-cache-keyed-by-all-attributes', [(C, '''def styleattrs_to_colorful(attrs):
+    c = colorful.reset''', '''_style_cache = {}
+
+
+def styleattrs_to_colorful(attrs):
+    key = (attrs['color'], attrs['bgcolor'], attrs['bold'], attrs['italic'], attrs['underline'])
+    if key not in _style_cache:
+        _style_cache[key] = _styleattrs_to_colorful(attrs)
+    return _style_cache[key]
+
+
+def _styleattrs_to_colorful(attrs):
+    c = colorful.reset''')])
+add('C16', 'twin', 'accessor-through-fstrings-and-constants', [(C, '''        accessor = ''
+        if attrs['color']:
+            colorful.update_palette({'prettyprinterCurrFg': attrs['color']})
+            accessor = 'prettyprinterCurrFg'
+        if attrs['bgcolor']:
+            colorful.update_palette({'prettyprinterCurrBg': attrs['bgcolor']})
+            # colorful's style names are '<fg>_on_<bg>' or, without a
+            # foreground color, 'on_<bg>'.
+            accessor += '_on_prettyprinterCurrBg' if accessor else 'on_prettyprinterCurrBg'
+        c &= getattr(colorful, accessor)''', '''        fg_name, bg_name = 'ppFg', 'ppBg'
+        parts = []
+        if attrs['color']:
+            colorful.update_palette({fg_name: attrs['color']})
+            parts.append(fg_name)
+        if attrs['bgcolor']:
+            colorful.update_palette({bg_name: attrs['bgcolor']})
+            parts.append(f'on_{bg_name}')
+        c &= getattr(colorful, '_'.join(parts))''')])
 add('C16', 'twin', 'pop-guard-early-continue', [(C, '''                if isinstance(sdoc.value, Token):
                     try:
                         colorstack.pop()
@@ -1471,7 +1557,8 @@ add('C13', 'breaker', 'marker-without-id', [(P, '''    return '<Recursion on {} 
     )''', '''    return '<Recursion on {}>'.format(
         type(value).__name__
     )''')], 'C13.f')
-add(('C04', 'C16'), 'breaker', 'rfind-returns-first', [(U, '''    for i, el in enumerate(reversed(seq)):
+# both renderers share rfind_idx, so coloured == plain still holds: C04's concern only
+add('C04', 'breaker', 'rfind-returns-first', [(U, '''    for i, el in enumerate(reversed(seq)):
         if predicate(el):
             return length - i - 1''', '''    for i, el in enumerate(seq):
         if predicate(el):
